@@ -105,6 +105,41 @@ def xmitB1Step (x : LgXmit) (room : Nat) (ok : Bool) (blk : Option (Nat × Nat))
   | true, none => (none, .finished)                -- "Not a block response asking for the next block" (not FETCH)
   | false, _ => (none, .finished)                  -- 4.13, 4.08, … (4.01 Echo retry is outside): failure of some sort
 
+/-! ## the first response: coap_add_data_large_response_lkd → coap_add_data_large_internal (GET carrying Block2) -/
+
+/-- the arguments `adlBody` gets -/
+structure AdlCfg where
+  maxSize : Nat
+  tokLen : Nat
+  base : Nat
+  d : Nat
+  tokOpts0 : Nat
+  b2 : Nat
+  extra : Nat
+  blk : Option Nat
+
+/-- `coap_add_data_large_response(…)` for a request carrying Block2 (0, _, `reqSzx`), on a response PDU with a
+`tokLen`-byte token whose options so far (Content-Format, Max-Age: inserted by the function itself) take `optBytes`
+bytes, the highest being `lastOpt` (< 23): `coap_write_block_b_opt` writes Block2 (it may already reduce the size),
+then `coap_add_data_large_internal` runs its block-size selection with Size2 and ETag (`etagLen` value bytes) as the
+options it adds: these are the arguments `adlBody` is called with.  `none` = refused before (4.00 / 5.00). -/
+def rspCfg (maxSize tokLen optBytes lastOpt maxBlk length etagLen : Nat) (reqSzx : Nat) : Option AdlCfg :=
+  match writeBlockBOpt maxSize (tokLen + optBytes) 0 reqSzx length with
+  | .ok b val =>
+    let tokOpts0 := tokLen + optBytes + optEncodeSize (23 - lastOpt) val.length
+    let b0 := adlBlkSize (adlAvail maxSize tokOpts0 tokLen)
+    let b1 := if maxBlk ≠ 0 ∧ b0 > maxBlk then maxBlk else b0
+    let b2 := if b.aszx < b1 then b.aszx else b1
+    some { maxSize := maxSize, tokLen := tokLen, base := tokLen + optBytes, d := 23 - lastOpt, tokOpts0 := tokOpts0, b2 := b2,
+           extra := optEncodeSize (28 - 23) (varLen length) + optEncodeSize 4 etagLen, blk := some b.aszx }
+  | _ => none
+
+/-- the first response: `adlBody` on those arguments -/
+def addDataLargeRsp (maxSize tokLen optBytes lastOpt reqSzx maxBlk length etagLen : Nat) : Option AdlRes :=
+  match rspCfg maxSize tokLen optBytes lastOpt maxBlk length etagLen reqSzx with
+  | some c => adlBody c.maxSize c.tokLen c.base c.d c.tokOpts0 c.b2 length c.extra c.blk
+  | none => none
+
 /-! ## the release callback -/
 
 /-- What happens to `release_func` on each exit path of `coap_add_data_large_internal` (request, COAP_BLOCK_USE_LIBCOAP,
